@@ -6,3 +6,4 @@ import J1939.Props.C10
 #print axioms J1939.Props.C10.c10_rts_bam_keep_snd
 #print axioms J1939.Props.C10.c10_tickRcv_keeps_snd
 #print axioms J1939.Props.C10.c10_abort_releases
+#print axioms J1939.Props.C10.c10_22_deleted_returns_number
